@@ -127,7 +127,10 @@ def concretize(rng, idx, beh, prop, force_mode=None):
             if "cE" in x:
                 nodes.append({"kind": kind, "impl": "ecs_handler", "forward": True})
             elif "pE" in x:
-                nodes.append({"kind": kind, "impl": rng.choice(["ecs_handler", "ecs"]), "preset": True})
+                if rng.random() < 0.3:
+                    nodes.append({"kind": kind, "impl": "ecs_handler", "send": True})    # ECS from the client address
+                else:
+                    nodes.append({"kind": kind, "impl": rng.choice(["ecs_handler", "ecs"]), "preset": True})
             else:
                 has = opt and "cE" in opt["opts"]
                 nodes.append({"kind": kind, "impl": "ecs_handler", "forward": not has})
@@ -229,6 +232,9 @@ def composite_case(rng, idx, prop):
         post = []
         if rng.random() < 0.4:
             post.append({"kind": "cache", "impl": "cache", "hit": False})
+        if rng.random() < 0.4:
+            post.append(rng.choice([{"kind": "ecs", "impl": "ecs_handler", "forward": True},
+                                    {"kind": "fwdopt", "impl": "forward_edns0opt", "arg": "10"}]))
         post.append(up(outcome()))
         nodes = pre + [sub] + post
     opt = None
@@ -272,6 +278,9 @@ def attribute(case, trace, line_in_trace, prop="C03"):
                 return "handler:accepts-malformed:%s" % case["mal"], "malformed query (%s) reached the plugin chain" % case["mal"]
             return "handler:new-context", "state handed to the first plugin is not NewContext(query): %s" % json.dumps(ev["s"], sort_keys=True)
         who = impl_at(ev["pos"] - 1, ev)
+        if prop == "C15" and ev["s"]["r"]["k"] == "msg" and ev["s"]["r"]["nopt"] > 0:
+            return "context:response-slot-keeps-opt", "after %s set a response the slot still contains %d OPT record(s) (SetResponse must pop it)" % (
+                who, ev["s"]["r"]["nopt"])
         return "plugin:%s:down:%s" % (who, where), "%s broke its contract before calling the rest of the chain: %s" % (
             who, json.dumps(ev["s"], sort_keys=True))
     if e == "Up":
